@@ -81,16 +81,24 @@ def run_case(case):
     head = "{}({})".format(clsname, ','.join(map(str, sizes)))
     gm.check_views(G, M, head + " freshly created")
     grown = False
+    refused_batch_at = None
     nxp = case.get('nx') or {'mul': 1, 'add': 0, 'rev': False}
     nxp = {'mul': nxp['mul'], 'add': nxp['add'], 'rev': nxp['rev']}
     ops = case['ops']
     for i, op in enumerate(ops):
-        if not hasattr(G, op[0]):
+        if not hasattr(G, 'add_edges_from' if op[0] == 'add_batch' else op[0]):
             labels.add('operation-not-offered')
             continue
         ctx = "{} after step {} {}".format(head, i, _show(op))
         before = len(M.E)
-        got = gm.apply_op(G, M, op, ctx)
+        if op[0] == 'add_batch':
+            got = _apply_batch(G, M, op, ctx)
+            if 'batch-refused' in got:
+                refused_batch_at = i
+        else:
+            got = gm.apply_op(G, M, op, ctx)
+            if refused_batch_at is not None and op[0] == 'add_edge':
+                labels.add('add_edge-after-refused-batch')
         labels |= got
         if 'growth' in got:
             grown = True
@@ -119,8 +127,9 @@ def run_case(case):
 
 
 def _show(op):
-    if op[0] == 'add_edges_from':
-        return "add_edges_from({}{})".format(op[1], ' as iterator' if len(op) > 2 and op[2] == 'iter' else '')
+    if op[0] in ('add_edges_from', 'add_batch'):
+        return "add_edges_from({}{})".format(op[1], {'iter': ' as iterator', 'tuple': ' as tuple'}.get(
+            op[2] if len(op) > 2 else 'list', ''))
     return "{}({})".format(op[0], ','.join(map(str, op[1:])))
 
 
@@ -309,3 +318,266 @@ SUBCHECKS = [
                               'one-empty-side', 'networkx-relabelled', '5-insertions', 'refused-zero',
                               'bad-initial-size']),
 ]
+
+
+# ---------------------------------------------------------------------------
+# batches: add_edges_from with 1..100 pairs (beyond 32 and 64), any order, duplicates, one forbidden pair
+#
+# The operation ["add_batch", pairs, "list"|"iter"|"tuple"] is add_edges_from judged by a rule that does not
+# assume an order of processing (nothing documents add_edges_from but its code):
+#   * no forbidden pair in the list -> the call returns and every pair of the list is in the graph;
+#   * a pair that must be refused   -> ValueError; the graph then holds its former edges plus ANY subset of
+#     the legal pairs of the list (has_edge says which), and every view has to agree with exactly that set;
+#   * only a gray pair (a loop in a directed graph) -> either of the two.
+# Afterwards the history goes on (add_edge, remove_edge, growth, another batch) on the same model.
+
+BATCH_SIZES_QUICK = (1, 2, 5, 31, 32, 33, 63, 64, 65, 100)
+BATCH_SIZES_THOROUGH = tuple(range(1, 101))
+BATCH_ORDERS = ('sorted', 'reversed', 'shuffled', 'by-second')
+BATCH_BAD = {
+    'Graph': ('none', 'above-range', 'zero', 'self-loop', 'negative'),
+    'DirectedGraph': ('none', 'above-range', 'zero', 'negative', 'gray-loop'),
+    'BipartiteGraph': ('none', 'above-left', 'above-right', 'zero', 'wrong-side'),
+}
+BATCH_POS = ('first', 'middle', 'last', 'random')
+
+
+def _apply_batch(G, M, op, ctx):
+    pairs = [tuple(p) for p in op[1]]
+    how = op[2] if len(op) > 2 else 'list'
+    arg = {'iter': iter(list(pairs)), 'tuple': tuple(pairs)}.get(how, list(pairs))
+    kinds = [M.classify(u, v) for (u, v) in pairs]
+    legal = set(M.norm(u, v) for (u, v), k in zip(pairs, kinds) if k != 'bad')
+    labels = set(['batch'])
+    n = len(pairs)
+    labels.add('batch-size<32' if n < 32 else 'batch-size-32..63' if n < 64 else 'batch-size>=64')
+    normed = [M.norm(u, v) for (u, v), k in zip(pairs, kinds) if k != 'bad']
+    if len(set(normed)) < len(normed):
+        labels.add('batch-repeats-a-pair')
+    if any(e in M.E for e in normed):
+        labels.add('batch-repeats-an-edge-of-the-graph')
+    good = [p for p, k in zip(pairs, kinds) if k != 'bad']
+    labels.add('batch-given-sorted' if good == sorted(good) else 'batch-given-unsorted')
+    if 'bad' in kinds:
+        k = kinds.index('bad')
+        labels.add('batch-bad-first' if k == 0 else 'batch-bad-last' if k == n - 1 else 'batch-bad-inside')
+    ok, res = gm._call(ctx, G.add_edges_from, arg)
+    if ok:
+        if 'bad' in kinds:
+            raise Violation("{}: add_edges_from of {} pairs with the forbidden pair {} did not raise ValueError | model: {}".format(
+                ctx, n, pairs[kinds.index('bad')], M.describe()))
+        new = legal - M.E
+        M.inserted_total += len(new)
+        M.E |= legal
+        labels.add('batch-ok')
+        if new:
+            labels.add('inserted')
+        return labels
+    if 'bad' not in kinds and 'gray' not in kinds:
+        raise Violation("{}: add_edges_from of {} legal pairs raised ValueError({}) | model: {}".format(
+            ctx, n, res, M.describe()))
+    seen = set(e for e in legal if G.has_edge(e[0], e[1]))
+    kept = seen - M.E
+    labels.update(('refused', 'batch-refused'))
+    if 'bad' in kinds:
+        prefix = set(M.norm(u, v) for (u, v) in pairs[:kinds.index('bad')]) - M.E
+        labels.add('batch-kept-nothing' if not kept else 'batch-kept-the-pairs-before-the-bad-one' if kept == prefix
+                   else 'batch-kept-another-subset')
+        if n >= 32:
+            labels.add('big-batch-refused')
+            if kinds.index('bad') >= 2 and 'batch-given-unsorted' in labels:
+                labels.add('big-unsorted-batch-refused-after-legal-pairs')
+    if kept:
+        labels.add('inserted')
+    M.inserted_total += len(kept)
+    M.E |= kept
+    return labels
+
+
+def _universe(clsname, sizes):
+    if clsname == 'BipartiteGraph':
+        return [(u, v) for u in range(1, sizes[0] + 1) for v in range(1, sizes[1] + 1)]
+    n = sizes[0]
+    if clsname == 'Graph':
+        return [(u, v) for u in range(1, n + 1) for v in range(u + 1, n + 1)]
+    return [(u, v) for u in range(1, n + 1) for v in range(1, n + 1) if u != v]
+
+
+def _bad_pair(rng, clsname, sizes, kind):
+    if clsname == 'BipartiteGraph':
+        L, Rr = sizes
+        if kind == 'above-left':
+            return [L + rng.randint(1, 2), rng.randint(1, max(Rr, 1))]
+        if kind == 'above-right':
+            return [rng.randint(1, max(L, 1)), Rr + rng.randint(1, 2)]
+        if kind == 'wrong-side' and L != Rr:
+            # a legal edge (u, v) given as (v, u), with v not a left vertex or u not a right vertex
+            if Rr > L:
+                return [rng.randint(L + 1, Rr), rng.randint(1, max(L, 1))]
+            return [rng.randint(1, max(Rr, 1)), rng.randint(Rr + 1, L)]
+        return [[0, rng.randint(1, max(Rr, 1))], [rng.randint(1, max(L, 1)), 0]][rng.randint(0, 1)]
+    n = sizes[0]
+    x = rng.randint(1, max(n, 1))
+    if kind == 'above-range':
+        return [[n + rng.randint(1, 2), x], [x, n + rng.randint(1, 2)]][rng.randint(0, 1)]
+    if kind == 'negative':
+        return [[-x, x], [x, -1]][rng.randint(0, 1)]
+    if kind in ('self-loop', 'gray-loop'):
+        return [x, x]
+    return [[0, x], [x, 0]][rng.randint(0, 1)]
+
+
+def make_batch_case(rseed, clsname, size, order, bad, pos, dups, pre, how='list'):
+    """An explicit operation log: some edges first (pre), the batch, then more calls on the same object."""
+    import random
+    rng = random.Random(rseed)
+    case = {'cls': clsname}
+    if clsname == 'BipartiteGraph':
+        sizes = rng.choice([(3, 4), (5, 8), (8, 8), (10, 12), (12, 9), (2, 20)])
+        if bad == 'wrong-side' and sizes[0] == sizes[1]:
+            sizes = (10, 12)
+        case['L'], case['R'] = sizes
+    else:
+        sizes = (rng.choice([5, 8, 12, 16, 20] if clsname == 'Graph' else [4, 7, 10, 14]),)
+        case['n'] = sizes[0]
+    U = _universe(clsname, sizes)
+    simple = clsname == 'Graph'
+    orient = (lambda p: [p[1], p[0]] if (simple and rng.random() < 0.5) else [p[0], p[1]])
+    ops = []
+    present = []
+    if pre >= 1:
+        for p in rng.sample(U, min(len(U), rng.randint(1, 6))):
+            ops.append(['add_edge'] + orient(p))
+            present.append(p)
+    if pre >= 2:
+        extra = rng.sample(U, min(len(U), rng.randint(2, 40)))
+        ops.append(['add_batch', [orient(p) for p in extra], 'list'])
+        present.extend(extra)
+        if simple and present:
+            p = rng.choice(present)
+            ops.append(['remove_edge'] + orient(p))
+    # ---- the batch
+    nbad = 0 if bad == 'none' else 1
+    room = size - nbad
+    distinct = room if dups == 0 else max(1, (room * 2) // 3) if room else 0
+    distinct = min(distinct, len(U))
+    chosen = rng.sample(U, distinct)
+    if dups and present and chosen:
+        chosen[0] = rng.choice(present)              # a pair that is already an edge of the graph
+        chosen = list(dict.fromkeys(chosen))
+    if order == 'sorted':
+        chosen.sort()
+    elif order == 'reversed':
+        chosen.sort(reverse=True)
+    elif order == 'by-second':
+        chosen.sort(key=lambda p: (p[1], -p[0]))
+    pairs = [orient(p) for p in chosen]
+    while len(pairs) < room and chosen:                # repeated pairs, anywhere
+        pairs.insert(rng.randint(0, len(pairs)), orient(rng.choice(chosen)))
+    if nbad:
+        k = {'first': 0, 'last': len(pairs), 'middle': len(pairs) // 2}.get(pos)
+        if k is None:
+            k = rng.randint(0, len(pairs))
+        pairs.insert(k, _bad_pair(rng, clsname, sizes, bad))
+    ops.append(['add_batch', pairs, how])
+    # ---- afterwards
+    touched = chosen or U[:1]
+    for _ in range(rng.randint(3, 7)):
+        r = rng.random()
+        if r < 0.3 and touched:
+            ops.append(['add_edge'] + orient(rng.choice(touched)))         # a pair of the batch again
+        elif r < 0.6 and U:
+            u = rng.choice(touched)[0] if touched else 1
+            near = [p for p in U if u in p]
+            ops.append(['add_edge'] + orient(rng.choice(near or U)))        # at a vertex the batch touched
+        elif r < 0.7:
+            ops.append(['add_edge'] + _bad_pair(rng, clsname, sizes, BATCH_BAD[clsname][rng.randint(1, 3)]))
+        elif r < 0.8 and simple and touched:
+            ops.append(['remove_edge'] + orient(rng.choice(touched)))
+        elif r < 0.87 and simple:
+            ops.append(['update_vertex_number', sizes[0] + 1])
+            ops.append(['add_edge', sizes[0] + 1, rng.randint(1, sizes[0])])
+        elif U:
+            again = rng.sample(U, min(len(U), rng.choice([3, 33, 70])))
+            ops.append(['add_batch', [orient(p) for p in again], rng.choice(['list', 'iter'])])
+    case['ops'] = ops
+    case['nx'] = {'mul': 1 + rseed % 3, 'add': rseed % 5 - 2, 'rev': bool(rseed % 2)}
+    case['meta'] = {'size': size, 'order': order, 'bad': bad, 'pos': pos, 'dups': dups, 'pre': pre}
+    return case
+
+
+def run_batch_case(case):
+    out = run_case(case)
+    meta = case.get('meta') or {}
+    labels = list(out.labels)
+    if meta:
+        labels += ['bad:' + meta['bad'], 'order:' + meta['order'], 'pos:' + meta['pos'] if meta['bad'] != 'none' else 'pos:-']
+    batches = [op for op in case['ops'] if op[0] == 'add_batch']
+    big = any(len(op[1]) >= 5 for op in batches)
+    return Outcome(labels=sorted(set(labels)), nontrivial=big and '5-insertions' in out.labels, rejected=out.rejected)
+
+
+def enum_batches(tier):
+    k = 0
+    sizes = BATCH_SIZES_QUICK if tier == 'quick' else BATCH_SIZES_THOROUGH
+    orders = BATCH_ORDERS[:3] if tier == 'quick' else BATCH_ORDERS
+    for clsname in ('Graph', 'DirectedGraph', 'BipartiteGraph'):
+        for size in sizes:
+            for order in orders:
+                for bad in BATCH_BAD[clsname][:4 if tier == 'quick' else 5]:
+                    for pos in (('-',) if bad == 'none' else BATCH_POS[:3] if tier == 'quick' else BATCH_POS):
+                        k += 1
+                        yield make_batch_case(7 * k + 1, clsname, size, order, bad, pos, dups=k % 2, pre=k % 3,
+                                              how=('list', 'iter', 'tuple')[k % 3])
+    if tier == 'quick':
+        # the fifth kind of forbidden pair of each class, at the sizes around the thresholds
+        for clsname in ('Graph', 'DirectedGraph', 'BipartiteGraph'):
+            for size in (2, 31, 33, 64, 100):
+                for pos in BATCH_POS:
+                    k += 1
+                    yield make_batch_case(7 * k + 1, clsname, size, BATCH_ORDERS[k % 4], BATCH_BAD[clsname][4], pos,
+                                          dups=k % 2, pre=k % 3)
+
+
+_B_BIG = st.integers(0, 10 ** 6)
+_B_SIZE = st.one_of(st.integers(1, 100), st.sampled_from([31, 32, 33, 63, 64, 65, 99, 100]))
+_B_CLS = st.sampled_from(['Graph', 'DirectedGraph', 'BipartiteGraph'])
+
+
+@st.composite
+def _batch_strategy(draw):
+    clsname = draw(_B_CLS)
+    size = draw(_B_SIZE)
+    a, b = draw(_B_BIG), draw(_B_BIG)
+    bad = BATCH_BAD[clsname][a % 5] if (a // 5) % 4 else 'none'
+    return make_batch_case(b, clsname, size, BATCH_ORDERS[(a // 20) % 4], bad, BATCH_POS[(a // 80) % 4],
+                           dups=(a // 320) % 2, pre=(a // 640) % 3, how=('list', 'iter', 'tuple')[(a // 1920) % 3])
+
+
+SUBCHECKS.append(
+    SubCheck('batches', run_batch_case, strategy=lambda: _batch_strategy(), enumerate_cases=enum_batches,
+             quick=500, thorough=20000,
+             rule="add_edges_from on Graph(5..20), DirectedGraph(4..14), BipartiteGraph(3x4 .. 10x12, 2x20) with a list, "
+                  "an iterator or a tuple of 1..100 pairs (enumerated quick: 1, 2, 5, 31, 32, 33, 63, 64, 65, 100; thorough: "
+                  "every size 1..100; generated: any size), given sorted, reversed, shuffled or sorted by second "
+                  "endpoint, simple graphs with either orientation of each pair, with or without repeated pairs inside "
+                  "the list and pairs that are already edges, and with no or one forbidden pair (vertex above the "
+                  "range, 0, negative, self-loop in a simple graph, right/left swapped out of range in a bipartite "
+                  "graph; a loop in a directed graph is gray) at the first, middle, last or a random position; the graph "
+                  "is empty or holds a few edges / an earlier batch / a removal before; after the batch 3..7 more "
+                  "calls: add_edge of a pair of the batch, of a pair at a vertex the batch touched, of a forbidden "
+                  "pair, remove_edge, update_vertex_number + an edge on the new vertex (Graph), another batch of 3, 33 "
+                  "or 70 pairs. Oracle: the model; a batch without forbidden pair must return and insert every pair; a "
+                  "batch with a forbidden pair must raise ValueError and may leave ANY subset of its legal pairs in "
+                  "the graph (has_edge tells which, no order of processing or atomicity is assumed): the model becomes "
+                  "old edges + that subset; then, as after every step, " + COMMON_RULE +
+                  "Non-trivial: a batch of >=5 pairs and >=5 successful insertions.",
+             required_labels=['Graph', 'DirectedGraph', 'BipartiteGraph', 'batch-size<32', 'batch-size-32..63',
+                              'batch-size>=64', 'batch-ok', 'batch-refused', 'big-batch-refused',
+                              'big-unsorted-batch-refused-after-legal-pairs', 'batch-bad-first', 'batch-bad-inside',
+                              'batch-bad-last', 'batch-repeats-a-pair', 'batch-repeats-an-edge-of-the-graph',
+                              'batch-given-sorted', 'batch-given-unsorted', 'add_edge-after-refused-batch',
+                              'bad:above-range', 'bad:zero', 'bad:negative', 'bad:self-loop', 'bad:gray-loop',
+                              'bad:above-left', 'bad:above-right', 'bad:wrong-side', 'bad:none', 'order:sorted',
+                              'order:reversed', 'order:shuffled', 'order:by-second', 'removal', 'growth',
+                              'duplicate', '5-insertions', 'networkx-relabelled']))
